@@ -44,7 +44,7 @@ func genProg(rt *rapid.T, depth int) []KOp {
 			}
 		case "sel":
 			op.K = rapid.SampledFrom([]string{"", "k0", "k1", "k2"}).Draw(rt, "start")
-			op.End = rapid.SampledFrom([]string{"k2", "k3", "k9", "\xff"}).Draw(rt, "end")
+			op.End = rapid.SampledFrom([]string{"k2", "k3", "k9", "\x7f"}).Draw(rt, "end")
 			op.Limit = rapid.IntRange(0, 2).Draw(rt, "limit")
 		case "call":
 			op.Prog = genProg(rt, depth+1)
@@ -120,6 +120,23 @@ func GenChainPlan(rt *rapid.T, p *GenParams) *ChainPlan {
 			}
 		}
 		pl.Steps = append(pl.Steps, st)
+	}
+	// fault-then-recover motif (drawn last so that earlier draws are unchanged): a pending write of a
+	// key, an own block whose confirmation or play hits a write error, a walk that rolls the pool back
+	// and re-admits it, then two more transactions on the same key. Uniformly drawn steps almost never
+	// line these up (the defect behind it was found by hand, not by 17 000 random plans).
+	if p.StorFaults && rapid.IntRange(0, 5).Draw(rt, "motif") == 5 {
+		k := rapid.SampledFrom(kvKeys).Draw(rt, "motifkey")
+		n := rapid.IntRange(0, pl.Nodes-1).Draw(rt, "motifnode")
+		fw := rapid.IntRange(1, 3).Draw(rt, "motiffw")
+		real := rapid.IntRange(0, 3).Draw(rt, "motifreal") // 0: the harness's own assembly (MaxTx), else the node's miner
+		pl.Steps = append(pl.Steps,
+			CStep{Op: "kvtx", N: n, Prog: []KOp{{Op: "put", K: k, V: "m1"}}},
+			CStep{Op: "mine", N: n, A: real, B: 2, FW: fw},
+			CStep{Op: "walk", N: n, A: rapid.IntRange(0, 3).Draw(rt, "motifwalk")},
+			CStep{Op: "kvtx", N: n, Prog: []KOp{{Op: "put", K: k, V: "m2"}}},
+			CStep{Op: "kvtx", N: n, Prog: []KOp{{Op: "get", K: k}, {Op: "put", K: kvKeys[0], V: "m3"}}},
+		)
 	}
 	return pl
 }
